@@ -64,6 +64,19 @@ def check_table_tie(ck: Check, report):
         shutil.rmtree(out, ignore_errors=True)
 
 
+def check_rules_tie(ck: Check):
+    """Translator tie for the if/elif chain of types.describe_as_rowtype (precision / scale / length per type): generated theorem
+    meta_rules_match_source; with Props_C06.sf_meta_by_rules the model's sf_meta is then what the source's dict + chain compute."""
+    import types_translate
+
+    try:
+        ok, out = core.source_tie("c06rules", types_translate.coq(core.REPO), 1)
+    except types_translate.Unsupported as e:
+        ok, out = False, f"as_column_info is no longer of the translated form: {e}"
+    ck.cov["rules_tie"] = {"theorem": "meta_rules_match_source (generated from fakesnow/types.py::describe_as_rowtype with ast, checked by coqc)", "accepted": ok}
+    return ok, out
+
+
 def meta_tuple(m):
     return [m.type_code, core.opt(m.precision), core.opt(m.scale), core.opt(m.internal_size)]
 
@@ -159,6 +172,7 @@ def main():
     known = {f["id"]: f for f in ck.findings}
     # (a) translator tie + (b) unit-level table
     tie = check_table_tie(ck, report)
+    rules_ok, rules_out = check_rules_tie(ck)
     unit = check_unit(ck, report)
     # (c) engine level: description entry and fetched python kind per DuckDB type, vs the model and vs the property
     import snowflake.connector.errors as E  # noqa: F401
@@ -377,6 +391,9 @@ def main():
     if unit:
         n, m, o = unit[0]
         report(f"describe_as_rowtype({n!r}): model {m} vs implementation {o}; {len(unit)} type strings disagree", {"type": n, "model": m, "impl": o, "theorem": "Props_C06.meta_consistent_partial"}, no_input=True)
+    if not rules_ok:
+        report(f"the if/elif chain of types.describe_as_rowtype is no longer provably the model's meta_rules: {rules_out}; Props_C06.sf_meta_by_rules no longer ties sf_meta to this code",
+               {"theorem": "meta_rules_match_source"}, no_input=True)
     if eng_dis:
         tname, sql, m, g = eng_dis[0]
         report(f"`{sql}` (DuckDB type {tname}): model (meta, python kind) {m} vs implementation {g}", {"statement": sql, "model": m, "impl": g, "theorem": "Props_C06.meta_consistent_partial"}, no_input=True)
